@@ -32,6 +32,8 @@ def judge(c, prop, events, work, name, cfg=None, module="TraceEvents", keyfn=Non
         raise MachineryError("TLC judged %d states for %d events" % (r.distinct, len(events)))
     nfail = 0
     for l in r.lines:
+        if l.startswith("NOTE "):
+            c.notes.append(l)
         if l.startswith("FAIL "):
             m = re.match(r"FAIL (\d+) (.*)", l)
             idx, what = int(m.group(1)), m.group(2)
@@ -70,6 +72,16 @@ def run(prop, tier, seed):
                 if e["out"]["cls"] == "ok":
                     e["out"] = {"cls": "ok", "minor": e["out"]["minor"]}
             judge(c, prop, ev, work, "construct")
+            # design level: the operational parser machine refines the grammar on a bounded edit neighbourhood
+            r = tlc_or_die("MC_Parser", workers=8, timeout=1800)
+            c.add_tlc("MC_Parser: machine outcome = Classify for all <= 1-edit neighbours of 3 vectors x 3 constructors", r)
+            # beyond the property: exact error messages predicted by the machine (NOTE lines of the same TLC run; never violations)
+            notes = c.notes
+            if any("SPEC-INCONSISTENT" in n for n in notes):
+                raise MachineryError("ParserMachine.tla does not refine Vector.tla on a recorded string: %s" % notes[0][:300])
+            c.extra["beyond_property_error_message_mismatches"] = len(notes)
+            for n in notes[:3]:
+                print("NOTE (beyond C04, not a violation): exception text differs from ParserMachine.tla: %s" % n[:300])
             c.evaluations = len(ev)
             classes = {}
             for e in ev:
